@@ -218,6 +218,37 @@ def add_discriminators(rng, schema):
                     break
 
 
+def gen_union_flags_schema(rng):
+    """Unions whose members differ in their keyword-adding options: 2-3 member classes, each with its own context option,
+    other options and hooks (some look-alikes), a holder with u: Union[...] directly or in a container."""
+    kind = rng.choice([k for k in KINDS if k != "plain"])
+    toml = kind == "toml"
+    names, classes = {}, []
+    schema = {"kind": kind, "kw_only": rng.random() < 0.5, "repl": rng.random() < 0.5, "toml_safe": toml, "dialect": False,
+              "mixed_flags": True, "future_ann": rng.random() < 0.5, "uflags": True, "spell": gen_spell(rng),
+              "names": names, "classes": classes}
+
+    def new_name(t):
+        n = len(names)
+        names[str(n)] = {"ty": t, "default": False, "annotated": False}
+        return n
+    ints = [new_name(["int"]) for _ in range(3)]
+    k = rng.choice([2, 2, 3])
+    for c in range(k):
+        classes.append({"parent": None, "own_fields": sorted(rng.sample(ints, rng.choice([1, 1, 2]))), "own_hooks": gen_hooks(rng),
+                        "own_ctx": rng.random() < 0.55,
+                        "flags": [f for f in ("omit_none", "by_alias", "dialect") if rng.random() < 0.4]})
+    ms = canon_union(schema, rng.sample(range(k), k))
+    u = ["union", ms]
+    lk = lambda: rng.choice(["list", "tuple", "dict"])
+    hf = [new_name(rng.choice([u, u, ["list", lk(), u]]))]
+    if rng.random() < 0.4:
+        hf.append(new_name(["dc", rng.randrange(k)]))
+    classes.append({"parent": None, "own_fields": hf, "own_hooks": gen_hooks(rng), "own_ctx": rng.random() < 0.85,
+                    "flags": [f for f in ("omit_none", "by_alias", "dialect") if rng.random() < 0.6]})
+    return schema
+
+
 def gen_hier_schema(rng):
     """Class hierarchies: Base (0) with 2-4 (sub-)subclasses, a plain Leaf class nested in some of them, and a holder
     whose fields are declared with Base - plainly, behind a class-level (Config) discriminator with or without a
@@ -335,9 +366,9 @@ def gen_schema(rng):
         else:
             own_ctx = rng.choice([None, True, True, True, False])
         classes.append({"parent": parent, "own_fields": own, "own_hooks": hooks, "own_ctx": own_ctx})
-    # per-class code generation options other than the context: only where no union can see differing flag lists
-    if kind != "plain" and not schema["dialect"] and rng.random() < 0.4 \
-            and not any(L.ty_has_union(x["ty"]) for x in names.values()):
+    # per-class code generation options other than the context (with unions too: the model knows which keywords a call
+    # passes, which calls raise TypeError and which union members share a call expression)
+    if kind != "plain" and not schema["dialect"] and rng.random() < 0.4:
         schema["mixed_flags"] = True
         for k in classes:
             k["flags"] = [f for f in ("omit_none", "by_alias", "dialect") if rng.random() < 0.35]
@@ -600,12 +631,16 @@ def thorough_tier(ctx):
 def run(ctx: vlib.Ctx):
     t_start = time.time()
     ctx.coverage["rule"] = (
-        "random class tables (1-6 dataclasses; per class: each of the 4 hooks declared or not, on the class or inherited "
-        "from a parent; ADD_SERIALIZATION_CONTEXT on/off/inherited; fields int / nested class / List,Tuple,Dict of / "
-        "Optional of / Union of dataclasses, self-recursive classes; one type per field name so that look-alike classes "
-        "arise) x mixin kind (dict/json/orjson/msgpack/yaml/toml/plain) x hooks returning their argument or a new object "
-        "x random value tree x every entry point (mixin methods with/without context=, 6 codecs with root shapes "
-        "C/List/Tuple/Dict/Optional/Union); distinct = distinct (schema, value shape, entry point)")
+        "five schema families: (1) random class tables (1-6 dataclasses; stratified hook profiles, hooks declared or inherited; "
+        "ADD_SERIALIZATION_CONTEXT on/off/inherited, per-class OMIT_NONE/BY_ALIAS/DIALECT options; fields int / nested class / "
+        "List,Tuple,Dict / Optional / Union of dataclasses, recursion spelled by name or typing.Self; PEP 604, builtin/abc "
+        "generics, Annotated; one type per field name so that look-alike classes arise); (2) context/flag chains of depth 3-5; "
+        "(3) class hierarchies: subclass instances at base-typed positions, class-level (Config) discriminators with/without "
+        "field, Annotated discriminators (field / no field / include_supertypes), tags present or missing; (4) unions whose "
+        "members differ in their keyword-adding options; (5) fixed cases for every known finding - x mixin kind "
+        "(dict/json/orjson/msgpack/yaml/toml/plain) x hooks returning their argument or a new object x random value tree "
+        "(<= 45 instances) x every entry point (mixin methods with/without context= and dialect=, 6 codecs with root shapes "
+        "C/List/Tuple/Dict/Optional/Union/Annotated discriminator); distinct = distinct (schema, value shape, entry point)")
     ctx.trusted += [
         "Hooks.v pack/unpack: hand-written model of the generated to_dict/from_dict control flow restricted to hook events "
         "(checked against the real hook log on every run); Python attribute lookup/dynamic dispatch, keyword TypeError, "
@@ -615,12 +650,16 @@ def run(ctx: vlib.Ctx):
         "format libraries json/orjson/msgpack/yaml/tomli_w/tomllib only transport the dict (outputs are decoded and compared)",
     ]
     ctx.assumptions += [
-        "values are trees (no instance occurs twice), every instance has exactly the declared class (for a union: exactly one "
-        "of the member classes); subclass instances at a parent-typed position are outside the generator",
-        "union members are dataclasses; each field name has one type per schema; only ADD_SERIALIZATION_CONTEXT among the "
-        "code generation options; hooks do not raise",
-        "deserialization: events of union members that were tried and discarded concern no instance of the result and are not "
-        "violations (property text: 'every instance that ends up in a deserialization result'); the model reproduces them exactly",
+        "values are trees (no instance occurs twice); an instance has the declared class, one of the union's member classes, a "
+        "variant of the discriminator, or (12% of plain positions) a subclass with the same keyword-adding options; a variant "
+        "whose to_dict would not accept the keywords of the declared class (TypeError, a crash) is not generated",
+        "union members are dataclasses; each field name has one type per schema; hooks do not raise; a discriminator without a "
+        "field is generated only where the mixin has no format-specific method (the /repo defect reported in round 3)",
+        "deserialization: events of union members / discriminator variants that were tried and discarded concern no instance of "
+        "the result and are not violations (property text: 'every instance that ends up in a deserialization result'); the "
+        "model reproduces them exactly",
+        "serialization of subclass instances through format-specific mixin methods (to_msgpack/to_jsonb/to_toml) is outside the "
+        "Coq model (MRO-resolved method; known finding C19/format-method-subclass-dispatch): oracle only",
     ]
     # 1. theorems
     br = ctx.theorems("props/C19_hooks.vo", THEOREMS)
@@ -668,6 +707,10 @@ def run(ctx: vlib.Ctx):
         ctx.hist("schema_features", "per-class-flags", int(bool(schema.get("mixed_flags"))))
         ctx.hist("schema_features", "chain-family", int(bool(schema.get("chain"))))
         ctx.hist("schema_features", "hierarchy-family", int(bool(schema.get("hier"))))
+        ctx.hist("schema_features", "union-flags-family", int(bool(schema.get("uflags"))))
+        ctx.hist("schema_features", "union with members of differing options", int(any(
+            x["ty"][0] == "union" and len({(L.ctx_on(schema, m), tuple(L.class_flags(schema, m))) for m in x["ty"][1]}) > 1
+            for x in schema["names"].values())))
         ctx.hist("schema_features", "config-discriminator with field", int(any(k.get("disc") in ("field", True) for k in schema["classes"])))
         ctx.hist("schema_features", "config-discriminator without field", int(any(k.get("disc") == "nofield" for k in schema["classes"])))
         ctx.hist("schema_features", "Annotated discriminator", int(any("disc" in json.dumps(x["ty"]) for x in schema["names"].values())))
@@ -760,6 +803,13 @@ def run(ctx: vlib.Ctx):
         do_schema(si, schema, roots)
         si += 1
 
+    # unions whose members differ in their keyword-adding options
+    for _ in range(ctx.budget(30, 300)):
+        schema = gen_union_flags_schema(rng)
+        root_ty = ["dc", len(schema["classes"]) - 1]
+        do_schema(si, schema, [(root_ty, gen_value_capped(rng, schema, root_ty, schema["toml_safe"])) for _ in range(2)])
+        si += 1
+
     # 2. correspondence model vs implementation
     defs = "Local Open Scope nat_scope.\n" + "\n".join(f"Definition E{i} : env :=\n     {e}." for i, e in enumerate(envs)) + "\n"
 
@@ -820,7 +870,7 @@ def run(ctx: vlib.Ctx):
         if not res["ok"] and L.fmt_of(e) != "dict":
             okt = "None"       # may come from the format encoder (e.g. None is not TOML serializable)
         return (f"({mode}, {L.coq_bool(case['schema']['kind'] != 'plain')}, E{case['env']}, "
-                f"{L.coq_val(case['schema'], case['value'])}, {L.coq_ty(rt)}, {L.coq_bool(pc)}, "
+                f"{L.coq_val(case['schema'], case['value'])}, {L.coq_ty(rt)}, {L.coq_bool(pc)}, {L.coq_xf(['dialect'] if e.get('dialect') else [])}, "
                 f"{'CTok' if pc else 'CNone'}, {okt}, {evs})")
 
     def render_de(case, res):
